@@ -14,10 +14,10 @@ NODE_TAGS = {"N4S", "N4I", "N4G", "N4P", "N4L", "N4R", "N4C", "N4D", "N16S", "N1
 # 1500 for the collation universe, which does not close).  Depth 16 closes the other five universes (they need 11..15).
 # closure:shape / closure:map write only the observations C11 / C01 compare (the extracted model is the slow side).
 PROPS = {
-    "C01": dict(title="exact key->value map", families=[("tree:map", 16, 160, 160, 22), ("closure:map", 6, 6, 8, 0, 16, 0)],
+    "C01": dict(title="exact key->value map", families=[("tree:map", 16, 160, 160, 22), ("nul", 2, 16, 60, 10), ("closure:map", 6, 6, 8, 0, 16, 0)],
                 corr={"I", "S", "D"}, oracle={"I", "S", "D"}, theorem="Properties/C01.v",
-                corpus=["D1", "D2"]),
-    "C02": dict(title="iteration complete, duplicate-free, sorted", families=[("tree:iter", 16, 160, 120, 22)],
+                corpus=["D1", "D2", "D14"]),
+    "C02": dict(title="iteration complete, duplicate-free, sorted", families=[("tree:iter", 16, 160, 120, 22), ("nul:clean", 2, 16, 60, 10)],
                 corr={"ALL", "BWD"}, oracle={"ALL", "BWD"}, theorem="Properties/C02.v"),
     "C03": dict(title="Range exact", families=[("tree:range", 16, 160, 120, 22)],
                 corr={"RNG"}, oracle={"RNG"}, theorem="Properties/C03.v", corpus=["D4", "D5", "D12", "D13"]),
@@ -31,7 +31,7 @@ PROPS = {
                 corr={"ENC"}, oracle=set(), theorem="Properties/C07.v", need386=True, special="codec"),
     "C08": dict(title="collation trees", families=[("tree:full:coll", 20, 160, 110, 14)],
                 corr=ALL_TREE_TAGS - {"RNG"}, oracle=ALL_TREE_TAGS - {"RNG"}, theorem="Properties/C08.v", opts=["-buf"], side="C08"),
-    "C09": dict(title="compound trees", families=[("tree:full:comp", 12, 120, 120, 20), ("codec", 2, 20, 0, 0)],
+    "C09": dict(title="compound trees", families=[("tree:full:comp", 12, 120, 120, 20), ("tree:full:raw", 2, 20, 120, 12), ("codec", 2, 20, 0, 0)],
                 corr=ALL_TREE_TAGS | {"ENC"}, oracle=ALL_TREE_TAGS - {"PFX"}, theorem="Properties/C09.v"),
     "C10": dict(title="inner node tables", families=[("node4", 3, 12, 0, 0), ("node16", 3, 12, 0, 0), ("nodeseq", 8, 80, 0, 0)],
                 corr=NODE_TAGS, oracle=set(), theorem="Properties/C10.v", need386=True, special="node", corpus=["D11"]),
@@ -88,6 +88,18 @@ def nul_shape(cmds):
                 return True
     return False
 
+def coll_equal_sortkeys_shape(cmds):
+    """D14: a collation history that inserts two keys with different original bytes and byte-identical sort keys"""
+    seen = {}
+    for c in cmds:
+        t = c.split()
+        if t[0] == "I" and len(t) > 2 and ":" in t[2]:
+            o, k = t[2].split(":", 1)
+            if k in seen and seen[k] != o:
+                return True
+            seen.setdefault(k, o)
+    return False
+
 def classify_known(ctx, cmds, impl, other):
     """returns the known-finding entry a failing history is attributed to, or None"""
     for k in ctx.known:
@@ -95,6 +107,8 @@ def classify_known(ctx, cmds, impl, other):
             continue
         m = k.get("key", "")
         if m == "alpha-nul-prefix" and cmds and cmds[0].split()[2:3] == ["alpha"] and nul_shape(cmds):
+            return k
+        if m == "coll-equal-sortkeys" and cmds and cmds[0].split()[2:3] == ["coll"] and coll_equal_sortkeys_shape(cmds):
             return k
     return None
 
@@ -263,7 +277,15 @@ def corpus_replays(ctx):
                             failing = True
             if meta.get("status") == "known":
                 if failing:
-                    ctx.known_hits.append({"text": meta.get("finding", name), "property": ctx.prop})
+                    # one line per listed finding: use the entry of KNOWN_FINDINGS.txt with this replay's id
+                    did = name.split("-")[0]
+                    ent = [k for k in load_known()[0] if k.get("id") == did and k.get("property") == ctx.prop]
+                    if ent:
+                        ctx.known_hits.append(ent[0])
+                    else:
+                        # a corpus replay marked known without a listed finding for this property suppresses nothing
+                        report_violation(ctx, "corpus", "corpus replay %s fails and KNOWN_FINDINGS.txt lists no finding %s for %s" % (name, did, ctx.prop),
+                                         {"file": os.path.basename(path), "commands": read_cmds(path), "opts": opts}, "corpus-" + os.path.basename(path)[:-5])
                 else:
                     ctx.stats.setdefault("known_findings_no_longer_failing", []).append(name)
             else:
